@@ -68,8 +68,9 @@ structure DS where
   c : Collector Float
   m : Monitor Float
   xs : List (Nat × Hist Float)
+  m2 : Monitor Float        -- the monitor inside database.MonitoredDatabase
 
-def DS.init : DS := { c := Collector.empty, m := Monitor.new, xs := [] }
+def DS.init : DS := { c := Collector.empty, m := Monitor.new, xs := [], m2 := Monitor.new }
 
 def keyOf (name : Bytes) (tags : Tags) : Bytes := metricKey cfg.sorts cfg.sp name tags (tagNames tags)
 
@@ -226,6 +227,25 @@ def step (d : DS) (l : String) : DS × String :=
   | ["enable", b] => ({ d with m := { d.m with enabled := b == "1" } }, "ok")
   | ["totals"] => (d, dumpCollector d.m.c true)
   | ["dump"] => (d, dumpCollector d.c false)
+  | ["mdbload", _n] =>
+    -- LoadDatabaseWithMonitoring: RecordDatabaseOperation("load", d, true), once
+    let σ := [tOperation, tSuccess]
+    ({ d with m2 := d.m2.recordDb cfg (asc "load") 0.0 true σ σ }, "ok")
+  | ["mdbsearch", q, _limit, _withOpts] =>
+    -- Search*WithMonitoring: RecordSearchOperation once; the cache-hit flag is C05's business, the
+    -- totals printed below do not depend on it
+    match Bytes.ofHex q with
+    | some qb => ({ d with m2 := d.m2.recordSearch cfg 0.0 0 false (Float.ofNat qb.length) }, "ok")
+    | none => (d, "bad-op")
+  | ["mdbenable", b] => ({ d with m2 := { d.m2 with enabled := b == "1" } }, "ok")
+  | ["mdbtotals"] =>
+    let cv (k : Bytes) : Int := (valueOf? d.m2.c.counters k).getD 0
+    let st := cv (keyOf nSearchesTotal (searchTags true)) + cv (keyOf nSearchesTotal (searchTags false))
+    let hm := cv nCacheHits + cv nCacheMisses
+    let ql := ((valueOf? d.m2.c.hists nQueryLength).getD freshHist).count
+    let ld := cv (keyOf nDbTotal (dbTags (asc "load") true))
+    let all := sumByName d.m2.c.counters nDbTotal
+    (d, s!"{st} {hm} {ql} {ld} {all}")
   | _ => (d, "bad-op")
 
 def runCase (ops : Array String) : Array String := Id.run do
